@@ -25,27 +25,39 @@ def thorough_passes():
             (dict(nm=3, nr=3, K=(-1, 0, 1, 2), d=1), lambda n: any(abs(x) == 2 for c in n for x in c))]
 
 
-def check_model(net, bounds, interface, stats, rich=False, user_first=False):
+def check_model(net, bounds, interface, stats, rich=False, user_first=False, edited=False):
     """All objective/direction cases for one (network, bounds). Returns list of (sig, case, detail)."""
     import numpy as np
     from cobra.exceptions import OPTLANG_TO_EXCEPTIONS_DICT, OptimizationError
 
     mets, rxns = families.as_data(net, bounds)
     fba = exactlp.FBA(mets, rxns)
-    model = families.build_model(mets, rxns, interface, user_first=user_first)
     ids = [r[0] for r in rxns]
+    if edited:
+        # the same model reached through edits instead of construction: every reaction is first written backwards
+        # (mirrored bounds) and turned round inside the model with `reaction *= -1`; then all reactions are removed
+        # inside a context that is rolled back
+        model = families.build_model(mets, rxns, interface, flip=set(ids))
+        for r in list(model.reactions):
+            r *= -1
+        with model:
+            model.remove_reactions(list(model.reactions))
+    else:
+        model = families.build_model(mets, rxns, interface, user_first=user_first)
     out = []
     S = np.array([[r[1].get(m, 0) for r in rxns] for m in mets], dtype=float)
     lbs = np.array([r[2] for r in rxns], dtype=float)
     ubs = np.array([r[3] for r in rxns], dtype=float)
     for k, (obj, direction) in enumerate(families.objectives(ids, rich)):
         case = {"net": [list(c) for c in net], "bounds": [[_j(a), _j(b)] for a, b in bounds], "interface": interface,
-                "objective": obj, "direction": direction, "user_first": user_first}
+                "objective": obj, "direction": direction, "user_first": user_first, "edited": edited}
 
         def bad(check, detail, **extra):
             s = {"check": check, "interface": interface, "direction": direction, "exact": st}
             if user_first:
                 s["user_constraint_first"] = True
+            if edited:
+                s["origin"] = "edited"
             s.update(extra)
             out.append((s, case, f"{detail}\nmodel: {rxns}\nobjective {obj} {direction}"))
 
@@ -183,6 +195,8 @@ def run_task(payload):
             if stats["models"] % 4 == 0:
                 # the same model with a user variable/constraint added before any metabolite or reaction
                 violations.extend(check_model(net, bounds, "glpk", stats, rich=False, user_first=True))
+            if stats["models"] % 4 == 2 or payload.get("rich", False):
+                violations.extend(check_model(net, bounds, "glpk", stats, rich=False, edited=True))
     return {"violations": violations[:200], "stats": stats, "n_violations": len(violations)}
 
 
@@ -190,7 +204,8 @@ def replay(case):
     net = tuple(tuple(c) for c in case["net"])
     bounds = tuple((_u(a), _u(b)) for a, b in case["bounds"])
     stats = {}
-    out = check_model(net, bounds, case["interface"], stats, rich=True, user_first=case.get("user_first", False))
+    out = check_model(net, bounds, case["interface"], stats, rich=True, user_first=case.get("user_first", False),
+                      edited=case.get("edited", False))
     return [{"sig": s, "detail": d} for s, c, d in out
             if c["objective"] == case["objective"] and c["direction"] == case["direction"]]
 
